@@ -1803,6 +1803,9 @@ func genReplCase(g *gen, w *bufio.Writer, class string, big bool) {
 				size = g.pick(32768, 65536, 100000) + g.pick(-1, 0, 1, 4)
 			case 3:
 				size = 1100000 + g.intn(300000)
+				if g.chance(1, 2) {
+					size = 10 * 1024 * 1024 // the largest value the API accepts: it replicates like any other
+				}
 			default:
 				size = 20000 + g.intn(20000)
 			}
